@@ -75,12 +75,14 @@ def gen_cases(rng, tier):
         if defect == 'gap' and cfg['S'] < 3:
             cfg['S'] = rng.choice([3, 4])
         files = L.grid_from_config(rng, cfg)
+        attrs = L.vary_attrs(rng, cfg, files)
         files, note = L.apply_defect(rng, cfg, files, defect)
         order = L.add_order(rng, files)
         qs = [list(q) for q in QUERIES]
         rng.shuffle(qs)
         if rng.random() < 0.3:
             qs[-1:] = [['nifti', rng.choice(['', 'RAS', 'LPI']), rng.random() < 0.5]] if qs[-1][0] == 'nifti' else qs[-1:]
+        note['attrs'] = attrs
         case = {'kind': '%s/%s' % (cfg['mode'], defect), 'note': note,
                 'dims': [cfg['S'], cfg['T'], cfg['V']], 'orient': cfg['orient'], 'direction': cfg['direction']}
         case.update(L.case_header(cfg))
